@@ -1214,7 +1214,49 @@ def run_C15(ctx, rng, tier, res, known):
                     if str(n) != want:
                         res.drift.append(dict(case=line[:300], cfg=c, allocations=n, model=want, note="allocation prediction (alloc build)"))
     res.samples.append(dict(case=lines[0][:200]))
+    feature_graph_check(ctx, res, lines, paths)
     return {}
+
+def feature_graph(repo=None):
+    """the crate's own feature table (Cargo.toml): name -> closure of enabled features"""
+    import tomllib
+    t = tomllib.load(open(os.path.join(repo or vlib.REPO, "Cargo.toml"), "rb")).get("features", {})
+    def closure(names):
+        seen, todo = set(), list(names)
+        while todo:
+            n = todo.pop()
+            if n in seen or "/" in n or n.startswith("dep:"):
+                continue
+            seen.add(n)
+            todo += t.get(n, [])
+        return seen
+    return t, closure
+
+def feature_graph_check(ctx, res, lines, paths):
+    """the harness selects features explicitly (default-features = false), so what `default` / `std` / `compact`
+    pull in is read from the crate's manifest: a configuration that is supposed to be allocation-free
+    (default, compact, no_std + compact) must not reach `alloc` through the feature graph. If it does, the
+    configuration it really is gets run and its first allocating input is the replay."""
+    try:
+        t, closure = feature_graph()
+    except Exception as ex:
+        res.extra["feature_graph"] = "not readable: %r" % (ex,)
+        return
+    named = {"default": ["default"], "compact (default + compact)": ["default", "compact"],
+             "no_std + compact": ["compact"], "std": ["std"]}
+    res.extra["feature_graph"] = {k: sorted(closure(v) & {"std", "compact", "alloc", "nightly"}) for k, v in named.items()}
+    slow = [l for l, p in zip(lines, paths) if p == "slow"][:200]
+    for name, feats in named.items():
+        cl = closure(feats)
+        if "alloc" in cl:
+            real = "+".join(x for x in ("std", "compact", "alloc") if x in cl)
+            first = None
+            if real in ctx.cfgs and slow:
+                out = run_impl(real, "release", slow)
+                first = next(((l, o) for l, o in zip(slow, out) if o.startswith("v ") and int(o.split()[3]) != 0), None)
+            res.viol.append(("heap-allocation", dict(case=first[0] if first else (slow[0] if slow else "al f64 d1 - 0"),
+                                                     cfg=name, resolved_features=sorted(cl), impl=first[1] if first else None,
+                                                     why="the %s configuration enables `alloc` through the feature table of Cargo.toml" % name)))
 
 # ------------------------------------------------------------------ C16
 def run_C16(ctx, rng, tier, res, known):
